@@ -8,7 +8,8 @@ SPEC = dict(
     rule="obs_cachekey: token lists of 0-7 tokens over mixed alphabets (arbitrary bytes, empty tokens, digit strings), read-only-script "
          "commands incl. numkeys <> 1 and too-short ones (panics), MGET / JSON.MGET forms; pairs of distinct commands: arguments "
          "re-split at random cut points (same name and key), name absorbing a suffix of the key (TTL kP / PTTL k), key-only "
-         "differences, flag-only differences, tokens moved across the key position, unrelated pairs; for lru collisions the real lru "
+         "differences, commands whose arguments repeat the key token (any position, several times, also in front of a script's key) paired with "
+         "reorderings / one copy more or fewer, flag-only differences, tokens moved across the key position, unrelated pairs; for lru collisions the real lru "
          "is driven to show the wrong hit; obs_adapter: histories over colliding (key, cmd) pairs; a pair is non-trivial when both "
          "identities exist; distinct by (flag, tokens)",
     trusted=["strings.Builder concatenation; Go string equality"],
